@@ -16,6 +16,9 @@ Rec == ndJsonDeserialize(IOEnv.TRACE)
 Mismatch(line, got, want) ==
     PrintT("MISMATCH " \o ToJson([line |-> line, got |-> got, want |-> want]))
 
+\* a countable remark (e.g. an event that was outside the property's quantifier and therefore not judged)
+Note(tag) == PrintT("NOTE " \o tag)
+
 \* TRUE after writing one line (a JSON string literal whose content is JSON)
 Emit(x) == CSVWrite("%1$s", <<ToJson(x)>>, IOEnv.OUT)
 
